@@ -4,6 +4,7 @@ import Whawty.Model.SaslServer
 import Whawty.Model.Pam
 import Driver.Proto
 import Driver.StoreCmd
+import Driver.TraceCmd
 open Whawty Whawty.Proto
 
 def unknownMsg : Bytes := [117, 110, 107, 110, 111, 119, 110]   -- "unknown"
@@ -80,7 +81,7 @@ def predict (cmd : List String) : Option String :=
     if script.startsWith "R" || sent.isEmpty then pure s!"{rc} {sBytes sent}" else pure s!"{rc} *"
   | ["pam.enc", u, p] => do
     pure s!"ok {sBytes (Sasl.pamEncode (← pBytes u) (← pBytes p))}"
-  | _ => StoreCmd.predict cmd
+  | _ => (StoreCmd.predict cmd).orElse fun _ => TraceCmd.predict cmd
 
 def handle (line : String) : String :=
   let toks := (line.splitOn " ").filter (· ≠ "")
@@ -97,7 +98,7 @@ def handle (line : String) : String :=
     | _ :: real =>
       let r := " ".intercalate real
       let agree := if m.endsWith "*" then r.startsWith (m.dropEnd 1).toString else r == m
-      if agree then "A" else "D " ++ m
+      if agree then "A" else if m.startsWith "V " || m.startsWith "D " then m else "D " ++ m
 
 partial def loop (h : IO.FS.Stream) (out : IO.FS.Stream) : IO Unit := do
   let line ← h.getLine
